@@ -7,6 +7,7 @@ d, sid, prop = sys.argv[1], sys.argv[2], sys.argv[3]
 checks = [prop]
 if '--checks' in sys.argv:
     checks = sys.argv[sys.argv.index('--checks') + 1].split(',')
+tier = sys.argv[sys.argv.index('--tier') + 1] if '--tier' in sys.argv else 'quick'
 WT = '/var/tmp/seedcheck'
 TGT = '/var/tmp/seedcheck-target'
 env = dict(os.environ, CARGO_TARGET_DIR=TGT, CARGO_NET_OFFLINE='true')
@@ -42,9 +43,9 @@ sh('git apply %s/patch.diff' % d)
 os.remove(WT + '/tests/seed_demo.rs')
 res = {}
 for c in checks:
-    r = subprocess.run(['bin/check', c, '--no-evidence'], cwd='/verif', env=dict(os.environ, VERIF_REPO=WT), stdout=subprocess.PIPE, stderr=subprocess.PIPE, text=True)
+    r = subprocess.run(['bin/check', c, '--no-evidence', '--tier', tier], cwd='/verif', env=dict(os.environ, VERIF_REPO=WT), stdout=subprocess.PIPE, stderr=subprocess.PIPE, text=True)
     lines = [l for l in r.stdout.split('\n') if l.strip()]
-    res[c] = {'exit': r.returncode, 'lines': lines[:6]}
+    res[c if tier == 'quick' else c + ':' + tier] = {'exit': r.returncode, 'lines': lines[:6]}
     print('check', c, 'exit', r.returncode, '|', ' || '.join(l[:200] for l in lines[:3]))
 sh('git -C /repo worktree remove --force ' + WT, cwd='/')
 if ok_suite and demo_fails and demo_passes:
@@ -54,8 +55,10 @@ if ok_suite and demo_fails and demo_passes:
         shutil.copy(d + '/patch.diff', dst + '/patch.diff')
         shutil.copy(d + '/demo.rs', dst + '/demo.rs')
     meta = json.load(open(d + '/meta.json')) if os.path.exists(d + '/meta.json') else {}
-    meta.update({'property': prop, 'confirmed': ran, 'check_results': res,
-                 'detected_by': [c for c in res if res[c]['exit'] == 1]})
+    old = meta.get('check_results', {}) if tier != 'quick' else {}
+    old.update(res)
+    meta.update({'property': prop, 'confirmed': ran, 'check_results': old,
+                 'detected_by': [c for c in old if old[c]['exit'] == 1]})
     json.dump(meta, open(dst + '/meta.json', 'w'), indent=1)
     print('KEPT', dst)
 else:
